@@ -9,8 +9,8 @@ use serde_json::json;
 fn excluded(p: &Node) -> Option<&'static str> {
     if !p.refs_exist() {
         Some("ref-to-missing-group")
-    } else if p.has_f1() {
-        Some("class-F1")
+    } else if p.has_f1() && !p.f1_loops_all_hard() {
+        Some("class-F1 (easy loop body)")
     } else if p.has_bare_backref_cond() {
         Some("bare-backref-condition")
     } else {
@@ -83,7 +83,12 @@ pub fn run(ctx: &Ctx) -> Outcome {
                 base_res.push((r, h.aux_mismatch > 0));
             }
         }
+        let mut cap_hits = 0;
         for v in variants {
+            if over_budget() || cap_hits >= 2 {
+                acc.count(if cap_hits >= 2 { "variants-skipped-after-2-step-cap-hits" } else { "work-items-skipped:time-budget-exhausted" });
+                break;
+            }
             let vs = v.print();
             let re2 = match compile(&vs) {
                 Got::Val(r) => r,
@@ -120,6 +125,9 @@ pub fn run(ctx: &Ctx) -> Outcome {
                         acc.violate(Violation::new("C03", "shadow(C20)", &vs, t, from, "captures_from_pos", "restore/commit discipline".into(), h.first_fault.clone().unwrap_or_default()));
                     }
                     any_match |= matches!(got, Got::Val(Some(_)));
+                    if got.is_step_cap() {
+                        cap_hits += 1;
+                    }
                     if &got != want {
                         if fj && (h.aux_mismatch > 0 || *base_mm) && !got.is_panic() && !want.is_panic() {
                             acc.known_hit("FJ", || format!("{} vs {} on {:?}@{}", s, vs, t, from));
